@@ -450,8 +450,44 @@ Theorem c12_sam_records_any_delivery :
 Proof. exact run_sam_records_spec. Qed.
 Print Assumptions c12_sam_records_any_delivery.
 
-(* ---- lazy VCF record reader.  Its read_field validates UTF-8 per fill_buf window, so the
-   unconditional statement is FALSE: the same record read through capacity 1 and capacity 64 *)
+(* ---- lazy VCF record reader.  TabRead.vcf_utf8_repaired says which read_field the tree has
+   (false: every fill_buf window slice validated on its own = the known class
+   vcf-record-field-utf8-split-capacity-dependent; true: after /tmp/C12/fixes/05b, one validation per
+   field).  Through the switch: the reader of the tree returns the closed form with whole-field
+   validation for every data once the switch is true, and for ASCII data before *)
+Theorem c12_vcf_read_record_chunk_indep :
+  forall (S : Type) (rd : reader S) (Rep : S -> list N -> nat -> Prop), simulates rd Rep ->
+  forall cap, 1 <= cap ->
+  forall fuel st d m, rep_buf Rep st d m -> m + length d + 2 < fuel ->
+    (vcf_utf8_repaired = true \/ ascii d = true) ->
+    exists st' m',
+      d_vcf_read_record rd cap fuel st
+        = (fst (fst (fst (wx_vcf_read_record d))), snd (fst (fst (wx_vcf_read_record d))),
+           snd (fst (wx_vcf_read_record d)), st')
+      /\ rep_buf Rep st' (snd (wx_vcf_read_record d)) m' /\ m' <= m
+      /\ length (snd (wx_vcf_read_record d)) <= length d.
+Proof. exact (@d_vcf_read_record_spec). Qed.
+Print Assumptions c12_vcf_read_record_chunk_indep.
+
+(* the repaired read_field (fx = true) itself, whatever the switch says: every data, no premise *)
+Theorem c12_vcf_read_record_repaired_chunk_indep :
+  forall (S : Type) (rd : reader S) (Rep : S -> list N -> nat -> Prop), simulates rd Rep ->
+  forall cap, 1 <= cap ->
+  forall fuel st d m, rep_buf Rep st d m -> m + length d + 2 < fuel ->
+    exists st' m',
+      d_vcf_read_record_fx rd cap true fuel st
+        = (fst (fst (fst (wx_vcf_read_record d))), snd (fst (fst (wx_vcf_read_record d))),
+           snd (fst (wx_vcf_read_record d)), st')
+      /\ rep_buf Rep st' (snd (wx_vcf_read_record d)) m' /\ m' <= m
+      /\ length (snd (wx_vcf_read_record d)) <= length d.
+Proof.
+  intros S rd Rep Hsim cap Hcap fuel st d m HR Hf.
+  exact (d_vcf_read_record_fx_spec rd Rep Hsim cap Hcap true fuel st d m HR Hf (or_introl eq_refl)).
+Qed.
+Print Assumptions c12_vcf_read_record_repaired_chunk_indep.
+
+(* the unconditional statement about the reader of the tree; FALSE while the switch is false:
+   the same record read through capacity 1 and capacity 64 *)
 Definition c12_vcf_read_record_full_statement : Prop :=
   forall data sc1 sc2 cap1 cap2, 1 <= cap1 -> 1 <= cap2 ->
     fst (run_vcf_records cap1 (mkSource data sc1)) = fst (run_vcf_records cap2 (mkSource data sc2)).
@@ -459,14 +495,17 @@ Definition c12_vcf_read_record_full_statement : Prop :=
 Definition vcf_utf8_witness : list N :=
   [115; 9; 49; 9; 195; 169; 9; 65; 9; 46; 9; 46; 9; 46; 9; 46; 10]%N.   (* s 1 "e-acute" A . . . . *)
 
-Theorem c12_vcf_read_record_refuted : ~ c12_vcf_read_record_full_statement.
+Theorem c12_vcf_read_record_refuted :
+  vcf_utf8_repaired = false -> ~ c12_vcf_read_record_full_statement.
 Proof.
-  intros H. specialize (H vcf_utf8_witness [] [] 1 64 ltac:(lia) ltac:(lia)).
-  vm_compute in H. discriminate.
+  intros Hsw. vm_compute in Hsw.
+  first [ discriminate Hsw
+        | intros H; specialize (H vcf_utf8_witness [] [] 1 64 ltac:(lia) ltac:(lia));
+          vm_compute in H; discriminate H ].
 Qed.
 Print Assumptions c12_vcf_read_record_refuted.
 
-(* outside the known class (all bytes < 128) the VCF record reader is delivery independent *)
+(* outside the known class (all bytes < 128) the reader of the tree equals the plain closed form *)
 Theorem c12_vcf_read_record_ascii_chunk_indep :
   forall (S : Type) (rd : reader S) (Rep : S -> list N -> nat -> Prop), simulates rd Rep ->
   forall cap, 1 <= cap ->
@@ -572,4 +611,15 @@ Example c12_example_sam :
   fst (run_sam_records 1 (mkSource f [Interrupted; Deliver 1])) = fst (run_sam_records 64 (mkSource f [])) /\
   map (fun x => fst (fst x)) (fst (run_sam_records 3 (mkSource f [Deliver 2])))
     = [TextBase.Ok 25; TextBase.Ok 0].
+Proof. vm_compute. repeat split. Qed.
+
+(* VCF: the repaired read_field reads the witness of the known class the same through capacity 1
+   (with Interrupted) and capacity 64, and reports an invalid byte after consuming its field *)
+Example c12_example_vcf_repaired :
+  fst (fst (d_vcf_read_record_fx src_read 1 true 200 ([], mkSource vcf_utf8_witness [Interrupted; Deliver 1])))
+    = fst (fst (d_vcf_read_record_fx src_read 64 true 200 ([], mkSource vcf_utf8_witness []))) /\
+  fst (fst (fst (d_vcf_read_record_fx src_read 64 true 200 ([], mkSource vcf_utf8_witness []))))
+    = TextBase.Ok 17 /\
+  fst (fst (fst (d_vcf_read_record_fx src_read 2 true 200 ([], mkSource [115; 9; 233; 9; 65; 10]%N []))))
+    = TextBase.Err TextBase.InvalidData.
 Proof. vm_compute. repeat split. Qed.
